@@ -255,7 +255,7 @@ func runC20(c *core.Ctx, o Options) {
 			if an.IsConstructorBase(fa.X, fn) || isLocalStruct(fa.X) {
 				return
 			}
-			key := owner + "." + f.Name()
+			key := owner + "." + an.FieldName(f)
 			ob := c.Ob("complete", an.NameOf(fn), "store to "+key, st.Pos())
 			switch exc[key] {
 			case "setter":
